@@ -1,13 +1,690 @@
 package peers
 
+// C17, part C: explicit-state BFS over event histories of the real Manager.
+//
+// The Manager is built with NewManager (real pools, real connection gater over a map
+// datastore, real libp2p event bus) and its three background loops are started directly
+// with fake subscriptions; shrex-sub notifications are delivered by calling Validate.
+// Events: shrex-sub notification (peer, hash), header arrival (hash), discovery add/remove,
+// disconnect, Peer() call (may block), DoneFunc result noop/cool-down/blacklist, cancel of a
+// blocked Peer(), GC tick, cool-down expiry.
+//
+// Oracle = a deliberately weak reference model (allowed membership + cool-down deadlines
+// per pool), so that it demands no more than the property:
+//   - a peer returned by Peer() is a member of the hash pool or of the node pool in the model
+//     and not on cool-down there; a blacklisted peer (blacklisting enabled) is never returned
+//   - node-pool membership is justified: the peer was discovered, or announced a data hash
+//     that a header has confirmed - a peer that only announced unconfirmed hashes is not in it
+//   - a blocked Peer() call is woken whenever one of its two pools has an active peer, and
+//     returns when cancelled
+//   - notifications from blacklisted peers / for blacklisted hashes are rejected
+
 import (
+	"context"
 	"encoding/json"
+	"fmt"
+	"os"
+	"sort"
+	"strings"
 	"testing"
+	"testing/synctest"
 	"time"
 
+	"github.com/ipfs/go-datastore"
+	ds_sync "github.com/ipfs/go-datastore/sync"
+	pubsub "github.com/libp2p/go-libp2p-pubsub"
+	"github.com/libp2p/go-libp2p/core/event"
+	"github.com/libp2p/go-libp2p/core/host"
+	"github.com/libp2p/go-libp2p/core/network"
+	"github.com/libp2p/go-libp2p/core/peer"
+	"github.com/libp2p/go-libp2p/p2p/host/eventbus"
+	"github.com/libp2p/go-libp2p/p2p/net/conngater"
+
+	libhead "github.com/celestiaorg/go-header"
+
+	"github.com/celestiaorg/celestia-node/header"
+	"github.com/celestiaorg/celestia-node/share"
+	"github.com/celestiaorg/celestia-node/share/shwap/p2p/shrex/shrexsub"
 	"github.com/celestiaorg/celestia-node/verifx/vx"
 )
 
-func managerEV(t *testing.T, rep *vx.Report, deadline time.Time) bool { return true }
+type mgrCfg struct {
+	Peers     []string `json:"peers"`
+	Hashes    int      `json:"hashes"`
+	Blacklist bool     `json:"blacklist"`
+	MaxTicks  int      `json:"max_ticks"`
+	// Prefer: which pool wins when both deliver a peer to a blocked Peer() at the same instant
+	// (1 = hash pool, 2 = node pool); owns Go's random select, see hooks.go
+	Prefer int `json:"prefer"`
+}
 
-func replayManager(t *testing.T, rep *vx.Report, raw json.RawMessage) {}
+type vHost struct {
+	host.Host
+	id  peer.ID
+	bus event.Bus
+	net *vNet
+}
+
+func (h *vHost) ID() peer.ID              { return h.id }
+func (h *vHost) EventBus() event.Bus      { return h.bus }
+func (h *vHost) Network() network.Network { return h.net }
+
+type vNet struct {
+	network.Network
+	closed []peer.ID
+}
+
+func (n *vNet) ClosePeer(p peer.ID) error { n.closed = append(n.closed, p); return nil }
+
+type vHdrSub struct{ ch chan *header.ExtendedHeader }
+
+func (s *vHdrSub) NextHeader(ctx context.Context) (*header.ExtendedHeader, error) {
+	select {
+	case h := <-s.ch:
+		return h, nil
+	case <-ctx.Done():
+		return nil, ctx.Err()
+	}
+}
+func (s *vHdrSub) Cancel() {}
+
+var _ libhead.Subscription[*header.ExtendedHeader] = (*vHdrSub)(nil)
+
+type mPool struct {
+	member map[string]bool
+	cool   map[string]time.Time
+}
+
+func newMPool() *mPool { return &mPool{member: map[string]bool{}, cool: map[string]time.Time{}} }
+func (p *mPool) add(id string) {
+	if !p.member[id] {
+		p.member[id] = true
+		delete(p.cool, id)
+	}
+}
+func (p *mPool) remove(id string) { delete(p.member, id); delete(p.cool, id) }
+func (p *mPool) offerable(id string) bool {
+	return p.member[id] && !time.Now().Before(p.cool[id])
+}
+
+type pendingPeer struct {
+	id     int
+	hash   int
+	cancel context.CancelFunc
+	res    chan peerRes
+}
+type peerRes struct {
+	id   peer.ID
+	done DoneFunc
+	err  error
+}
+type outstanding struct {
+	id   int
+	hash int
+	peer string
+	src  string // "h" = taken from the hash pool, "nodes" = from the discovered-nodes pool (inferred from the model)
+	done DoneFunc
+}
+
+type mgrSys struct {
+	cfg    mgrCfg
+	m      *Manager
+	host   *vHost
+	em     event.Emitter
+	hdr    *vHdrSub
+	ctx    context.Context
+	cancel context.CancelFunc
+	err    error
+	start  time.Time
+	ticks  int
+
+	hashes  []share.DataHash
+	heights []uint64
+
+	// model
+	nodes      *mPool
+	hpools     map[int]*mPool
+	validated  map[int]bool
+	announced  map[string]map[int]bool // peer -> hashes announced (accepted notifications)
+	discovered map[string]bool
+	black      map[string]bool
+	blackHash  map[int]bool
+
+	pending []*pendingPeer
+	outs    []*outstanding
+	nextID  int
+}
+
+func mkHash(i int) share.DataHash {
+	h := make([]byte, 32)
+	for k := range h {
+		h[k] = byte(0x10*(i+1) + k%7)
+	}
+	return h
+}
+
+func newMgrSys(cfg mgrCfg) *mgrSys {
+	s := &mgrSys{cfg: cfg, nodes: newMPool(), hpools: map[int]*mPool{}, validated: map[int]bool{},
+		announced: map[string]map[int]bool{}, discovered: map[string]bool{}, black: map[string]bool{}, blackHash: map[int]bool{}}
+	s.start = time.Now()
+	for i := 0; i < cfg.Hashes; i++ {
+		s.hashes = append(s.hashes, mkHash(i))
+		s.heights = append(s.heights, uint64(100+i))
+		s.hpools[i] = newMPool()
+	}
+	bus := eventbus.NewBus()
+	s.host = &vHost{id: peer.ID("self"), bus: bus, net: &vNet{}}
+	gater, err := conngater.NewBasicConnectionGater(ds_sync.MutexWrap(datastore.NewMapDatastore()))
+	if err != nil {
+		s.err = fmt.Errorf("harness: gater: %v", err)
+		return s
+	}
+	params := DefaultParameters()
+	params.EnableBlackListing = cfg.Blacklist
+	m, err := NewManager(*params, s.host, gater, "verif")
+	if err != nil {
+		s.err = fmt.Errorf("harness: NewManager: %v", err)
+		return s
+	}
+	s.m = m
+	s.ctx, s.cancel = context.WithCancel(context.Background())
+	m.cancel = s.cancel
+	s.hdr = &vHdrSub{ch: make(chan *header.ExtendedHeader)}
+	sub, err := bus.Subscribe(&event.EvtPeerConnectednessChanged{}, eventbus.BufSize(eventbusBufSize))
+	if err != nil {
+		s.err = fmt.Errorf("harness: subscribe: %v", err)
+		return s
+	}
+	s.em, err = bus.Emitter(&event.EvtPeerConnectednessChanged{})
+	if err != nil {
+		s.err = fmt.Errorf("harness: emitter: %v", err)
+		return s
+	}
+	go m.subscribeHeader(s.ctx, s.hdr)
+	go m.subscribeDisconnectedPeers(s.ctx, sub)
+	go m.GC(s.ctx)
+	synctest.Wait()
+	return s
+}
+
+func (s *mgrSys) fail(format string, a ...any) error {
+	if s.err == nil {
+		s.err = fmt.Errorf(format, a...)
+	}
+	return s.err
+}
+
+func (s *mgrSys) Enabled() []string {
+	if s.err != nil {
+		return nil
+	}
+	var ev []string
+	for _, p := range s.cfg.Peers {
+		for h := range s.hashes {
+			ev = append(ev, fmt.Sprintf("sub:%s:%d", p, h))
+		}
+		ev = append(ev, "disc+:"+p, "disc-:"+p, "down:"+p)
+	}
+	for h := range s.hashes {
+		ev = append(ev, fmt.Sprintf("hdr:%d", h))
+		if len(s.pending) < 1 { // concurrent waiters race on the real pool lock (not owned at event granularity); pool-level concurrency is part A
+			ev = append(ev, fmt.Sprintf("peer:%d", h))
+		}
+	}
+	for _, o := range s.outs {
+		ev = append(ev, fmt.Sprintf("done:%d:noop", o.id), fmt.Sprintf("done:%d:cool", o.id), fmt.Sprintf("done:%d:black", o.id))
+	}
+	for _, p := range s.pending {
+		ev = append(ev, fmt.Sprintf("cancel:%d", p.id))
+	}
+	if s.ticks < s.cfg.MaxTicks {
+		ev = append(ev, "tick:cool", "tick:gc", "tick:timeout")
+	}
+	return ev
+}
+
+func (s *mgrSys) Apply(ev string) error {
+	if s.err != nil {
+		return s.err
+	}
+	parts := strings.Split(ev, ":")
+	switch parts[0] {
+	case "sub":
+		p := parts[1]
+		var h int
+		fmt.Sscan(parts[2], &h)
+		wasBlack := s.black[p]
+		wasBlackHash := s.blackHash[h]
+		res := s.m.Validate(s.ctx, peer.ID(p), shrexsub.Notification{DataHash: s.hashes[h], Height: s.heights[h]})
+		if (wasBlack || wasBlackHash) && res != pubsub.ValidationReject {
+			return s.fail("C17/manager/blacklisted-accepted: notification from peer %s (blacklisted=%v) for hash %d (blacklisted=%v) got validation result %v", p, wasBlack, h, wasBlackHash, res)
+		}
+		if res == pubsub.ValidationIgnore && s.heights[h] >= s.m.storeFrom.Load() && !wasBlack && !wasBlackHash {
+			s.hpools[h].add(p)
+			if s.announced[p] == nil {
+				s.announced[p] = map[int]bool{}
+			}
+			s.announced[p][h] = true
+			if s.validated[h] {
+				s.nodes.add(p)
+			}
+		}
+	case "hdr":
+		var h int
+		fmt.Sscan(parts[1], &h)
+		s.hdr.ch <- &header.ExtendedHeader{RawHeader: header.RawHeader{Height: int64(s.heights[h]), DataHash: []byte(s.hashes[h])}}
+		s.validated[h] = true
+		for p := range s.hpools[h].member {
+			s.nodes.add(p)
+		}
+	case "disc+":
+		s.m.UpdateNodePool(peer.ID(parts[1]), true)
+		if !s.black[parts[1]] {
+			s.discovered[parts[1]] = true
+			s.nodes.add(parts[1])
+		}
+	case "disc-":
+		s.m.UpdateNodePool(peer.ID(parts[1]), false)
+		s.nodes.remove(parts[1])
+	case "down":
+		if err := s.em.Emit(event.EvtPeerConnectednessChanged{Peer: peer.ID(parts[1]), Connectedness: network.NotConnected}); err != nil {
+			return s.fail("harness: emit: %v", err)
+		}
+		s.nodes.remove(parts[1])
+	case "peer":
+		var h int
+		fmt.Sscan(parts[1], &h)
+		ctx, cancel := context.WithCancel(s.ctx)
+		pp := &pendingPeer{id: s.nextID, hash: h, cancel: cancel, res: make(chan peerRes, 1)}
+		s.nextID++
+		s.pending = append(s.pending, pp)
+		// Peer() marks the pool validated (the caller holds a header for that hash)
+		s.validated[h] = true
+		for p := range s.hpools[h].member {
+			s.nodes.add(p)
+		}
+		go func() {
+			id, done, err := s.m.Peer(ctx, s.hashes[h], s.heights[h])
+			pp.res <- peerRes{id, done, err}
+		}()
+	case "done":
+		var id int
+		fmt.Sscan(parts[1], &id)
+		for i, o := range s.outs {
+			if o.id != id {
+				continue
+			}
+			s.outs = append(s.outs[:i:i], s.outs[i+1:]...)
+			before := s.coolSet()
+			switch parts[2] {
+			case "noop":
+				o.done(ResultNoop)
+			case "cool":
+				o.done(ResultCooldownPeer)
+				after := s.coolSet()
+				marked := false
+				for k := range after {
+					marked = marked || !before[k]
+				}
+				// model: the pool the peer was taken from must not offer it before the cool-down
+				// elapsed. If the implementation put it on cool-down somewhere, that tells the source;
+				// if it did nothing although the peer is still an active member of the (inferred) source
+				// pool, the model records the cool-down there.
+				if !marked {
+					if o.src == "nodes" {
+						if s.nodes.offerable(o.peer) && s.m.nodes.has(peer.ID(o.peer)) {
+							s.nodes.cool[o.peer] = time.Now().Add(s.m.params.PeerCooldown)
+						}
+					} else if s.hpools[o.hash].offerable(o.peer) && s.m.pools[s.hashes[o.hash].String()] != nil {
+						s.hpools[o.hash].cool[o.peer] = time.Now().Add(s.m.params.PeerCooldown)
+					}
+				}
+				for k := range after {
+					if !before[k] {
+						// k = "<pool>/<peer>" newly on cool-down
+						kp := strings.SplitN(k, "/", 2)
+						if kp[0] == "nodes" {
+							s.nodes.cool[kp[1]] = time.Now().Add(s.m.params.PeerCooldown)
+						} else {
+							var hh int
+							fmt.Sscan(kp[0], &hh)
+							s.hpools[hh].cool[kp[1]] = time.Now().Add(s.m.params.PeerCooldown)
+						}
+					}
+				}
+			case "black":
+				o.done(ResultBlacklistPeer)
+				if s.cfg.Blacklist {
+					s.black[o.peer] = true
+					s.nodes.remove(o.peer)
+				}
+			}
+			break
+		}
+	case "cancel":
+		var id int
+		fmt.Sscan(parts[1], &id)
+		for _, p := range s.pending {
+			if p.id == id {
+				p.cancel()
+			}
+		}
+	case "tick":
+		s.ticks++
+		switch parts[1] {
+		case "cool":
+			time.Sleep(s.m.params.PeerCooldown)
+		case "gc":
+			time.Sleep(s.m.params.GcInterval)
+		case "timeout":
+			time.Sleep(s.m.params.PoolValidationTimeout + s.m.params.GcInterval)
+		}
+	default:
+		return s.fail("harness: unknown event %s", ev)
+	}
+	synctest.Wait()
+	time.Sleep(2 * time.Nanosecond) // lets the deferred (non-preferred) pool answer through, see hooks.go
+	synctest.Wait()
+	s.collect(ev)
+	return s.Check()
+}
+
+// coolSet lists "<pool>/<peer>" pairs currently on cool-down in the REAL pools.
+func (s *mgrSys) coolSet() map[string]bool {
+	out := map[string]bool{}
+	for id, st := range s.m.nodes.statuses {
+		if st == cooldown {
+			out["nodes/"+string(id)] = true
+		}
+	}
+	for h := range s.hashes {
+		if p := s.m.pools[s.hashes[h].String()]; p != nil {
+			for id, st := range p.statuses {
+				if st == cooldown {
+					out[fmt.Sprintf("%d/%s", h, id)] = true
+				}
+			}
+		}
+	}
+	return out
+}
+
+// collect finished Peer() calls and judge them
+func (s *mgrSys) collect(ev string) {
+	keep := s.pending[:0:0]
+	for _, pp := range s.pending {
+		select {
+		case r := <-pp.res:
+			if r.err != nil {
+				if strings.HasPrefix(ev, "cancel:") && r.err == context.Canceled {
+					continue
+				}
+				s.fail("C17/manager/peer-error: Peer(hash %d) returned error %v after event %s", pp.hash, r.err, ev)
+				continue
+			}
+			p := string(r.id)
+			if s.black[p] {
+				s.fail("C17/manager/blacklisted-offered: Peer(hash %d) returned blacklisted peer %s", pp.hash, p)
+			}
+			if !s.hpools[pp.hash].offerable(p) && !s.nodes.offerable(p) {
+				s.fail("C17/manager/offered-not-offerable: Peer(hash %d) returned %s which is neither an active member of that hash pool (member=%v cool-until=%v) nor of the node pool (member=%v cool-until=%v) in the model",
+					pp.hash, p, s.hpools[pp.hash].member[p], s.hpools[pp.hash].cool[p].Sub(time.Now()), s.nodes.member[p], s.nodes.cool[p].Sub(time.Now()))
+			}
+			// Peer() prefers the hash pool: if the peer is offerable there the cool-down applies there
+			src := "nodes"
+			if s.hpools[pp.hash].offerable(p) {
+				src = "h"
+			}
+			s.outs = append(s.outs, &outstanding{id: pp.id, hash: pp.hash, peer: p, src: src, done: r.done})
+		default:
+			keep = append(keep, pp)
+		}
+	}
+	s.pending = keep
+	// removals performed by the implementation are always allowed: resync the model downwards
+	for p := range s.nodes.member {
+		if !s.m.nodes.has(peer.ID(p)) {
+			s.nodes.remove(p)
+		}
+	}
+	for h := range s.hashes {
+		rp := s.m.pools[s.hashes[h].String()]
+		for p := range s.hpools[h].member {
+			if rp == nil || !rp.has(peer.ID(p)) {
+				s.hpools[h].remove(p)
+			}
+		}
+		if rp == nil && s.m.blacklistedHashes.Contains(s.hashes[h].String()) {
+			s.blackHash[h] = true
+		}
+	}
+	if s.cfg.Blacklist {
+		for _, p := range s.cfg.Peers {
+			if !s.m.connGater.InterceptPeerDial(peer.ID(p)) {
+				s.black[p] = true
+			}
+		}
+	}
+}
+
+func (s *mgrSys) Check() error {
+	if s.err != nil {
+		return s.err
+	}
+	// node-pool membership must be justified
+	for _, p := range s.cfg.Peers {
+		if !s.m.nodes.has(peer.ID(p)) {
+			continue
+		}
+		just := s.discovered[p]
+		for h := range s.announced[p] {
+			if s.validated[h] {
+				just = true
+			}
+		}
+		if !just {
+			return s.fail("C17/manager/unjustified-promotion: peer %s is in the discovered-nodes pool but was never discovered and only announced unconfirmed hashes %v", p, s.announced[p])
+		}
+		if s.black[p] {
+			return s.fail("C17/manager/blacklisted-in-nodes: blacklisted peer %s is in the node pool", p)
+		}
+		if !s.nodes.member[p] {
+			return s.fail("C17/manager/nodes-extra-member: peer %s is in the node pool but the model does not allow it (removed/disconnected and not re-added)", p)
+		}
+	}
+	// real pools internally consistent
+	if _, err := poolState(s.m.nodes); err != nil {
+		return s.fail("%s", strings.Replace(err.Error(), "C17/pool-", "C17/manager/nodes-pool-", 1))
+	}
+	for h := range s.hashes {
+		if p := s.m.pools[s.hashes[h].String()]; p != nil {
+			if _, err := poolState(p.pool); err != nil {
+				return s.fail("%s", strings.Replace(err.Error(), "C17/pool-", "C17/manager/hash-pool-", 1))
+			}
+			if s.validated[h] != p.isValidatedDataHash.Load() {
+				return s.fail("C17/manager/validated-flag: hash %d validated=%v in the implementation, %v expected", h, p.isValidatedDataHash.Load(), s.validated[h])
+			}
+		}
+	}
+	// lost wake-up: a blocked Peer() while one of its pools has an active peer
+	for _, pp := range s.pending {
+		n := s.m.nodes.len()
+		hp := 0
+		if p := s.m.pools[s.hashes[pp.hash].String()]; p != nil {
+			hp = p.len()
+		}
+		if n > 0 || hp > 0 {
+			return s.fail("C17/manager/lost-wakeup: Peer(hash %d) is still blocked although its hash pool has %d and the node pool %d active peers", pp.hash, hp, n)
+		}
+	}
+	return nil
+}
+
+func (s *mgrSys) Fingerprint() string {
+	var b strings.Builder
+	now := time.Now()
+	dump := func(name string, p *pool, mp *mPool) {
+		fmt.Fprintf(&b, "%s[", name)
+		if p != nil {
+			fmt.Fprintf(&b, "list=%v idx=%d ", p.peersList, p.nextIdx)
+			ks := make([]string, 0)
+			for id, st := range p.statuses {
+				ks = append(ks, fmt.Sprintf("%s:%d", id, st))
+			}
+			sort.Strings(ks)
+			fmt.Fprintf(&b, "%v q=", ks)
+			for _, it := range p.cooldown.items {
+				fmt.Fprintf(&b, "%s@%v,", it.ID, it.createdAt.Sub(now))
+			}
+		}
+		ms := []string{}
+		for id := range mp.member {
+			ms = append(ms, fmt.Sprintf("%s@%v", id, max(0, mp.cool[id].Sub(now))))
+		}
+		sort.Strings(ms)
+		fmt.Fprintf(&b, " model=%v]", ms)
+	}
+	dump("nodes", s.m.nodes, s.nodes)
+	for h := range s.hashes {
+		sp := s.m.pools[s.hashes[h].String()]
+		var p *pool
+		age := time.Duration(-1)
+		if sp != nil {
+			p = sp.pool
+			age = now.Sub(sp.createdAt)
+		}
+		dump(fmt.Sprintf("h%d", h), p, s.hpools[h])
+		fmt.Fprintf(&b, "v=%v bh=%v age=%v ", s.validated[h], s.blackHash[h], age)
+	}
+	fmt.Fprintf(&b, "init=%d from=%d t=%v ticks=%d ", s.m.initialHeight.Load(), s.m.storeFrom.Load(), now.Sub(s.start), s.ticks)
+	bl := []string{}
+	for p := range s.black {
+		bl = append(bl, p)
+	}
+	sort.Strings(bl)
+	ds := []string{}
+	for p := range s.discovered {
+		ds = append(ds, p)
+	}
+	sort.Strings(ds)
+	an := []string{}
+	for p, hs := range s.announced {
+		an = append(an, fmt.Sprintf("%s:%v", p, vx.SortedKeys(hs)))
+	}
+	sort.Strings(an)
+	fmt.Fprintf(&b, "black=%v disc=%v ann=%v pend=", bl, ds, an)
+	for _, p := range s.pending {
+		fmt.Fprintf(&b, "%d,", p.hash)
+	}
+	b.WriteString(" outs=")
+	for _, o := range s.outs {
+		fmt.Fprintf(&b, "%d/%s/%s,", o.hash, o.peer, o.src)
+	}
+	return b.String()
+}
+
+func (s *mgrSys) Close() {
+	if s.cancel != nil {
+		s.cancel()
+	}
+	synctest.Wait()
+	if s.m != nil {
+		select {
+		case <-s.m.headerSubDone:
+		default:
+			if s.err == nil {
+				s.err = fmt.Errorf("C17/manager/stop-hangs: header subscription loop did not stop after cancel")
+			}
+		}
+	}
+}
+
+func managerEV(t *testing.T, rep *vx.Report, deadline time.Time) bool {
+	type run struct {
+		cfg   mgrCfg
+		depth int
+	}
+	runs := []run{
+		{mgrCfg{Peers: []string{"p1", "p2"}, Hashes: 1, Blacklist: true, MaxTicks: 2, Prefer: 1}, 5},
+		{mgrCfg{Peers: []string{"p1"}, Hashes: 2, Blacklist: false, MaxTicks: 2, Prefer: 2}, 5},
+	}
+	if rep.Tier == "thorough" {
+		runs = []run{
+			{mgrCfg{Peers: []string{"p1", "p2"}, Hashes: 2, Blacklist: true, MaxTicks: 3, Prefer: 1}, 6},
+			{mgrCfg{Peers: []string{"p1", "p2", "p3"}, Hashes: 1, Blacklist: true, MaxTicks: 2, Prefer: 2}, 6},
+			{mgrCfg{Peers: []string{"p1", "p2"}, Hashes: 2, Blacklist: false, MaxTicks: 3, Prefer: 2}, 6},
+			{mgrCfg{Peers: []string{"p1", "p2"}, Hashes: 1, Blacklist: true, MaxTicks: 3, Prefer: 2}, 7},
+		}
+	}
+	exhaustive := true
+	for i, r := range runs {
+		r := r
+		vPrefer = r.cfg.Prefer
+		st := vx.BFS(vx.BFSOpts{MaxDepth: r.depth, Deadline: deadline, Workers: vx.Workers(),
+			RunInstance: func(f func()) { synctest.Test(t, func(*testing.T) { f() }) },
+			OnHang: func(hist []string, ev string) {
+				h := append(hist, ev)
+				rep.Violation("C17/manager/no-quiescence", fmt.Sprintf("the manager did not become quiescent within 180 s of real time after history %v (a goroutine is spinning or blocked on a lock forever)", h),
+					map[string]any{"part": "manager", "cfg": r.cfg, "history": h})
+				rep.SetExhaustive(false)
+				rep.Finish()
+				os.Exit(1)
+			}},
+			func() vx.Sys { return newMgrSys(r.cfg) },
+			func(hist []string, err error) {
+				sig := vSigOf(err)
+				if strings.HasPrefix(sig, "harness") || strings.HasPrefix(sig, "DIVERGENCE") {
+					rep.Infra(fmt.Sprintf("%v hist=%v", err, hist))
+					return
+				}
+				rep.Violation(sig, err.Error(), map[string]any{"part": "manager", "cfg": r.cfg, "history": hist})
+			})
+		if st.Capped != "" {
+			exhaustive = false
+		}
+		rep.Count(st.Replays, int64(st.States), int64(st.States), st.Transitions)
+		rep.Set(fmt.Sprintf("manager_ev_%d", i), map[string]any{"cfg": r.cfg, "depth_bound": r.depth, "depth_completed": st.DepthDone,
+			"states": st.States, "transitions": st.Transitions, "capped": st.Capped, "states_per_depth": st.PerDepth, "event_counts": st.EventCounts})
+		for _, h := range st.SampleHist {
+			if len(h) >= 4 {
+				rep.AddSample(map[string]any{"part": "manager", "cfg": r.cfg, "history": h})
+				break
+			}
+		}
+	}
+	return exhaustive
+}
+
+func replayManager(t *testing.T, rep *vx.Report, raw json.RawMessage) {
+	var doc struct {
+		Cfg     mgrCfg   `json:"cfg"`
+		History []string `json:"history"`
+	}
+	_ = json.Unmarshal(raw, &doc)
+	vPrefer = doc.Cfg.Prefer
+	var verr error
+	for i := 0; i < 5; i++ {
+		var e error
+		synctest.Test(t, func(*testing.T) {
+			s := newMgrSys(doc.Cfg)
+			defer s.Close()
+			for _, ev := range doc.History {
+				if e = s.Apply(ev); e != nil {
+					return
+				}
+			}
+		})
+		if i > 0 && fmt.Sprint(e) != fmt.Sprint(verr) {
+			t.Fatalf("NONDETERMINISM: %v vs %v", e, verr)
+		}
+		verr = e
+	}
+	rep.Count(5, 2, 1, int64(len(doc.History)))
+	rep.AddSample(doc)
+	if verr != nil {
+		fmt.Printf("REPLAY-RESULT violation reproduced 5/5: %v\n", verr)
+		rep.Violation(vSigOf(verr), verr.Error(), doc)
+	} else {
+		fmt.Println("REPLAY-RESULT no violation")
+	}
+}
